@@ -1,7 +1,7 @@
 (* C07 -- numbers are parsed exactly. Statements only. *)
 From Coq Require Import List ZArith Reals Lia.
 From Flocq Require Import Core.Core IEEE754.BinarySingleNaN.
-From SonicV Require Import Model.Number Model.Float Model.NumTables Model.SkipNum Gen.Tables Spec.Num.
+From SonicV Require Import Model.Number Model.Float Model.NumTables Model.SkipNum Gen.Tables Spec.Num Gen.Guards Model.GuardsOk Model.FloatMore.
 Import ListNotations.
 Open Scope Z_scope.
 
@@ -31,3 +31,37 @@ Theorem pow5_128_table : forall i, (i < 651)%nat ->
   let e := nth i POWER_OF_FIVE_128 (0%N, 0%N) in
   Z.of_N (fst e) * 2 ^ 64 + Z.of_N (snd e) = pow5_entry (SMALLEST_POWER_OF_FIVE + Z.of_nat i).
 Proof. exact pow5_table_correct. Qed.
+
+(* the other two branches of parse_float_fast: negative exponents divide by an exact power of ten,
+   exponents above 22 multiply twice with the first product exact -- one rounding each *)
+Theorem fast_path_division_correct : forall m e, 0 <= m < 2 ^ 53 -> 0 <= e <= 22 ->
+  B2R (fast_div m e) = round_ne (IZR m / IZR (10 ^ e)) /\ is_finite (fast_div m e) = true.
+Proof. exact fast_div_correct. Qed.
+Theorem fast_path_split_correct : forall m e, 0 <= m < 2 ^ 53 -> 22 < e <= 37 -> m * 10 ^ (e - 22) <= 10 ^ 15 ->
+  B2R (fast_split m e) = round_ne (IZR m * IZR (10 ^ e)) /\ is_finite (fast_split m e) = true.
+Proof. exact fast_split_correct. Qed.
+Theorem fast_path_split_test_exact : forall m k, 0 <= m < 2 ^ 53 -> 0 <= k <= 22 ->
+  (round_ne (IZR (m * 10 ^ k)) <= IZR (10 ^ 15))%R -> m * 10 ^ k <= 10 ^ 15.
+Proof. exact split_test_is_exact. Qed.
+
+(* the guards read from the source text on this run (Gen/Guards.v, lib/guards.py) meet the hypotheses
+   of the theorems above and keep every fast path inside its domain *)
+Theorem integer_digit_guard : 10 ^ G_INT_DIGITS <= 2 ^ 64 /\ G_INT_DIGITS_REDO = G_INT_DIGITS /\ G_INT_DIGITS = 19.
+Proof. exact int_digits_guard. Qed.
+Theorem float_digit_guard : 0 < G_FLOAT_DIGITS <= G_INT_DIGITS.
+Proof. exact float_digits_guard. Qed.
+Theorem exponent_clamp_is_harmless :
+  343 <= - G_EXP_CLAMP_LO /\ 2 ^ 64 * 2 ^ 1075 < 10 ^ 343 /\ 309 <= G_EXP_CLAMP_HI - 20 /\ 2 ^ 1024 <= 10 ^ 309.
+Proof. exact exponent_clamp_guard. Qed.
+Theorem clinger_guard_in_source :
+  2 ^ G_CL_SHIFT <= 2 ^ 53 /\
+  0 <= - G_CL_LO < POW10_FLOAT_LEN /\ G_CL_SPLIT < POW10_FLOAT_LEN /\ G_CL_SPLIT_MUL < POW10_FLOAT_LEN /\
+  0 < G_CL_SPLIT + 1 - G_CL_SPLIT_SUB /\ G_CL_HI - G_CL_SPLIT_SUB < POW10_FLOAT_LEN /\
+  5 ^ G_CL_SPLIT < 2 ^ 53 /\ 5 ^ (G_CL_HI - G_CL_SPLIT_SUB) < 2 ^ 53 /\ 5 ^ (- G_CL_LO) < 2 ^ 53 /\
+  10 ^ G_CL_MID_EXP < 2 ^ 53 /\ G_CL_SPLIT_MUL = G_CL_SPLIT_SUB /\ G_CL_SPLIT = G_CL_SPLIT_SUB.
+Proof. exact clinger_guard. Qed.
+Theorem normal_fast_guard_in_source :
+  0 <= (G_NF_LO + 1) + G_NF_IDX /\ (G_NF_HI - 1) + G_NF_IDX < POW5_LEN /\ G_NF_IDX = - SMALLEST_POWER_OF_FIVE /\
+  (2 ^ 64 - 1) * 10 ^ (G_NF_HI - 1) < 2 ^ 1024 - 2 ^ 970 /\
+  10 ^ (- (G_NF_LO + 1)) <= 2 ^ 1022.
+Proof. exact normal_fast_guard. Qed.
